@@ -573,6 +573,26 @@ def run_property(modname, tier, seed, only=None, jobs=None):
         path = write_replay(prop, subname, f)
         violations.append({"key": key, "subcheck": subname, "message": f["msg"][:600], "replay": path})
 
+    # replay tier: committed regression cases (shrunk inputs of repaired defects / seeded changes)
+    import glob
+    regress_run = 0
+    for path in sorted(glob.glob(os.path.join(REPLAY_DIR, "regress", "%s-*.json" % prop))):
+        if only:
+            break
+        regress_run += 1
+        try:
+            with open(path) as f:
+                rep = json.load(f)
+            sub = next(s for s in mod.SUBCHECKS if s.name == rep["subcheck"])
+            rr = Run(prop, sub, set(known_keys))
+            rr.execute(rep["case"])
+        except Violation as v:
+            if not any(x["key"] == v.key for x in violations):
+                violations.append({"key": v.key, "subcheck": rep["subcheck"], "message": v.msg[:600],
+                                   "replay": os.path.relpath(path, VERIF_ROOT)})
+        except Exception as e:
+            errors.append((os.path.basename(path), 0, "".join(traceback.format_exception(type(e), e, e.__traceback__))[-3000:]))
+
     # known findings: re-confirm through their committed replay files
     known_lines = []
     for kf in known_entries:
@@ -599,6 +619,7 @@ def run_property(modname, tier, seed, only=None, jobs=None):
             "oracle_comparisons": int(comparisons),
             "tie_band_exclusions": int(ties),
             "known_finding_hits_excluded": known_hits,
+            "regression_replays_run": regress_run,
             "excluded_after_first_report": int(excluded_hits),
             "labels": dict(sorted(labels.items())),
             "subchecks": per_sub,
